@@ -206,8 +206,13 @@ def run_request(req):
     import warnings
     warnings.simplefilter('ignore')
     scrub = [(req['project_dir'], '<P>')]
+    # relative renderings of the workspace path (evolve --hint --write prints
+    # os.path.relpath of the file it wrote)
+    scrub_tail = os.path.basename(os.path.dirname(req['project_dir']))
     for alias in req['databases']:
         scrub.append((os.path.dirname(req['databases'][alias]), '<D>'))
+    if scrub_tail:
+        scrub.append((scrub_tail, '<W>'))
     trace = Trace(req['trace'], scrub)
     try:
         install_clock(req)
